@@ -1,6 +1,7 @@
 package main
 
 import (
+	netmail "net/mail"
 	"crypto/tls"
 	"bytes"
 	"context"
@@ -367,11 +368,59 @@ func RunScenario(sc *SmtpScenario) (run *SmtpRun, msgs []*mail.Msg) {
 			_, _ = m.WriteTo(&b)
 			r.Rendering = b.Bytes()
 		}
-		r.Sender, _ = m.GetSender(false)
-		r.AllRcpts, _ = m.GetRecipients()
+		// the envelope the caller asked for, from the addresses handed to the setters (parsed with net/mail,
+		// not read back through the library's getters)
+		r.Sender, r.AllRcpts = expectedEnvelope(sc.Msgs[i])
+		if gs, _ := m.GetSender(false); gs != r.Sender {
+			run.APIProblems = append(run.APIProblems, fmt.Sprintf("message %d: GetSender(false)=%q, the address handed to the setter is %q", i, gs, r.Sender))
+		}
+		if gr, _ := m.GetRecipients(); strings.Join(gr, "\x00") != strings.Join(r.AllRcpts, "\x00") {
+			run.APIProblems = append(run.APIProblems, fmt.Sprintf("message %d: GetRecipients()=%q, the addresses handed to the setters are %q", i, gr, r.AllRcpts))
+		}
 		run.Msgs = append(run.Msgs, r)
 	}
 	return
+}
+
+// expectedEnvelope: sender (envelope-from, else From) and recipients (To, Cc, Bcc in that order) as bare
+// addresses, computed from the values of the scenario with net/mail alone. A setter call with a value that
+// does not parse sets nothing (To / Cc / Bcc take all values or none).
+func expectedEnvelope(sm SmtpMsg) (string, []string) {
+	bare := func(v string) (string, bool) {
+		a, err := netmail.ParseAddress(v)
+		if err != nil {
+			return "", false
+		}
+		return a.Address, true
+	}
+	sender := ""
+	if sm.From != "" {
+		if a, ok := bare(sm.From); ok {
+			sender = a
+		}
+	}
+	if sm.EnvFrom != "" {
+		if a, ok := bare(sm.EnvFrom); ok {
+			sender = a
+		}
+	}
+	var rcpts []string
+	for _, list := range [][]string{sm.To, sm.Cc, sm.Bcc} {
+		var one []string
+		ok := true
+		for _, v := range list {
+			a, good := bare(v)
+			if !good {
+				ok = false
+				break
+			}
+			one = append(one, a)
+		}
+		if ok {
+			rcpts = append(rcpts, one...)
+		}
+	}
+	return sender, rcpts
 }
 
 // traceStrings canonicalises the server's event log into the model's vocabulary
